@@ -317,6 +317,9 @@ def engine_check(prop, tier, seed, work, replay):
     # layouts in which no seat holds the big blind (half of them no small blind either): the engine accepts any layout with a dealer;
     # every call runs under a watchdog there, a call that never returns is recorded as the call's error (seeded change R5h-A)
     dr.random("nobb", 150 if tier == "quick" else 2500, seed * 1000 + 83, ["-nobb"], runbase=4500000)
+    # unusual layouts the engine accepts: one dealer, small and big blind on independently drawn seats (the dealer may hold the big blind,
+    # one seat both blinds, nobody the small blind) - seeded change R5l-A
+    dr.random("oddroles", 150 if tier == "quick" else 2500, seed * 1000 + 84, ["-oddroles"], runbase=4700000)
     if prop in ("C04", "C12", "C06"):
         dr.random("probe", T["probe_runs"], seed * 1000 + 77, ["-probe"], runbase=1000000)
     if prop in ("C11", "C12", "C05", "C01"):
